@@ -3,10 +3,18 @@
    MODEL: the FIFO worker-pool transition system of Base/Keyed.v over the replay instance, driven by the
           schedule of the case and then drained; reported tokens sorted, joined by ','.
           (batch size and timeout only choose among Work events; they do not occur in the transition relation)
-   SPEC : the sequential results of the trace as a multiset (sorted). *)
+   SPEC : the sequential results of the trace as a multiset (sorted).
+   kind L (TLS): <kind> W <workers> B <batch> T <timeout> L <cap per worker> <worker|x>:<frame hex> ... S <d|w<k>> ...
+   worker = the worker the real flow hash names for the frame (x: the hash returns None, the pool discards it).
+   MODEL: the CONCRETE TLS pool (Model/PoolConcrete.v: every worker runs Model/TlsAnalyzer.v tls_packet_step on
+          its own flow table of that capacity) under the schedule, then drained; the reported results as tokens
+          <src hex>:<port>><dst hex>:<port>|<signature fields>|fmts=*|<JA4>|<JA4_r>|<JA4_o>|<JA4_ro>, sorted, joined
+          by ';' ("-" when nothing is reported).
+   SPEC : the reports of the sequential concrete analyzer (capacity 1000) on ALL frames of the case, sorted;
+          no verdict ("-" column) when a worker or the sequential table leaves its capacity. *)
 From Coq Require Import List NArith Bool.
 From Coq Require Import Strings.Byte.
-From HN Require Import Base.Bytes Base.Keyed Model.Replay.
+From HN Require Import Base.Bytes Base.Keyed Model.Replay Model.Ja4 Model.TlsAnalyzer Model.PoolConcrete.
 Import ListNotations.
 
 Fixpoint parse_packets (ts : list bytes) : option (list rpacket * list bytes) :=
@@ -28,9 +36,71 @@ Fixpoint parse_sched (ts : list bytes) : option (list sched) :=
       | _, _ => None end
   end.
 
+(* ---- kind L ---- *)
+Definition lpacket := (nat * bytes)%type.          (* worker named by the real hash, frame *)
+Fixpoint parse_lpackets (ts : list bytes) : option (list (option nat * bytes) * list bytes) :=
+  match ts with
+  | [] => None
+  | t :: r =>
+      if bytes_eqb t (bs "S") then Some ([], r) else
+      match fsplit_on ":"%byte t, parse_lpackets r with
+      | [w; h], Some (ps, rest) =>
+          match read_hex h with
+          | Some f => if bytes_eqb w (bs "x") then Some ((None, f) :: ps, rest)
+                      else match read_N w with Some n => Some ((Some (N.to_nat n), f) :: ps, rest) | None => None end
+          | None => None end
+      | _, _ => None end
+  end.
+Definition dispatched_of (ps : list (option nat * bytes)) : list lpacket :=
+  flat_map (fun p => match fst p with Some w => [(w, snd p)] | None => [] end) ps.
+Fixpoint lsched_events (s : list sched) (tr : list lpacket) : list (ev lpacket) :=
+  match s with
+  | [] => map (Disp lpacket) tr
+  | SDisp :: s' => match tr with p :: tr' => Disp lpacket p :: lsched_events s' tr' | [] => lsched_events s' [] end
+  | SWork w :: s' => Work lpacket w :: lsched_events s' tr
+  end.
+Definition ldrain (workers n : nat) : list (ev lpacket) :=
+  flat_map (fun w => repeat (Work lpacket w) n) (seq 0 workers).
+
+Definition lkey (p : lpacket) : N := tls_key (snd p).
+Definition lstep (cap : N) (c : tls_state) (p : lpacket) := tls_packet_results cap c (snd p).
+Definition lfits (cap : N) (c : tls_state) (p : lpacket) := tls_fits cap c (snd p).
+
+Definition tls_pool_token (o : tls_out) : bytes :=
+  match o with
+  | TOSig src dst sport dport s =>
+      show_hex src ++ bs ":" ++ show_N sport ++ bs ">" ++ show_hex dst ++ bs ":" ++ show_N dport
+      ++ bs "|" ++ bar_spaces (sig_fields s ++ bs " fmts=* " ++ ja4_line_esc s)
+  | TONone => bs "-"
+  | TOErr => bs "-"                (* an Err is not a result: the worker loop drops it *)
+  end.
+Definition report_line (os : list tls_out) : bytes :=
+  match sort_bytes (reported (map tls_pool_token os)) with [] => bs "-" | l => join (bs ";") l end.
+
+Definition run_l (workers cap : N) (ps : list (option nat * bytes)) (s : list sched) : bytes :=
+  let tr := dispatched_of ps in
+  let es := lsched_events s tr ++ ldrain (N.to_nat workers) (length tr) in
+  let x := cprun lpacket N tls_out tls_state lkey (lstep cap) fst [] es in
+  let inside :=
+    cpwithinb lpacket N tls_out tls_state lkey (lstep cap) fst (lfits cap) (cinit lpacket N tls_out tls_state []) es
+    && tls_within_capacityb 1000 [] (map snd ps) in
+  out3 (report_line (map snd (couts lpacket N tls_out tls_state x)))
+       (if inside then report_line (snd (tls_run 1000 [] (map snd ps))) else bs "-") false.
+
 Definition run_line (l : bytes) : bytes :=
   match fsplit_on sp l with
   | _ :: _ :: w :: _ :: _ :: _ :: _ :: p :: rest =>
+      if bytes_eqb p (bs "L") then
+        match read_N w, rest with
+        | Some workers, c :: rest' =>
+            match read_N c, parse_lpackets rest' with
+            | Some cap, Some (ps, srest) =>
+                match parse_sched srest with
+                | Some s => if (workers =? 0)%N then bs "BADCASE" else run_l workers cap ps s
+                | None => bs "BADCASE" end
+            | _, _ => bs "BADCASE" end
+        | _, _ => bs "BADCASE" end
+      else
       match read_N w, parse_packets rest with
       | Some workers, Some (tr, srest) =>
           match parse_sched srest with
@@ -44,6 +114,12 @@ Definition run_line (l : bytes) : bytes :=
   | _ => bs "BADCASE" end.
 
 Example run_line_ex : run_line (bs "l W 2 B 1 T 5 P 0:bb:00 1:-:00 0:aa:00 1:cc:00 S d w1 d d w0 d") = bs "aa,bb,cc	aa,bb,cc	0".
+Proof. vm_compute. reflexivity. Qed.
+
+(* kind L: one whole ClientHello frame on worker 1 of 2 *)
+Example run_line_ex_L :
+  run_line (bs "l W 2 B 1 T 5 L 8 1:0200000000010200000000020800450000a812344000400600000a01039b5db8d823511201bb3e59830e6e58e2c48018ffff000000000101080a000810e2005470dd160301006f0100006b0303b3e811057e78288f5f15c0a9eb76c5ed5ab6a1d0d1a516de1b200477df05907100000600351302c02b0100003c000000090007000004782e696f001000050003026832000a00040002001d000d000400020403002b00030203040015000b0000000000000000000000 S d w1")
+  = bs "0a01039b:20754>5db8d823:443|ver=13|sni=:782e696f|alpn=:6832|ciphers=0035,1302,c02b|exts=0000,0010,000a,000d,002b,0015|sigalgs=0403|groups=001d|fmts=*|t13d0306h2_{sha12:303033352c313330322c63303262}_{sha12:303030612c303030642c303031352c303032625f30343033}|t13d0306h2_0035,1302,c02b_000a,000d,0015,002b_0403|t13d0306h2_{sha12:303033352c313330322c63303262}_{sha12:303030302c303031302c303030612c303030642c303032622c303031355f30343033}|t13d0306h2_0035,1302,c02b_0000,0010,000a,000d,002b,0015_0403	0a01039b:20754>5db8d823:443|ver=13|sni=:782e696f|alpn=:6832|ciphers=0035,1302,c02b|exts=0000,0010,000a,000d,002b,0015|sigalgs=0403|groups=001d|fmts=*|t13d0306h2_{sha12:303033352c313330322c63303262}_{sha12:303030612c303030642c303031352c303032625f30343033}|t13d0306h2_0035,1302,c02b_000a,000d,0015,002b_0403|t13d0306h2_{sha12:303033352c313330322c63303262}_{sha12:303030302c303031302c303030612c303030642c303032622c303031355f30343033}|t13d0306h2_0035,1302,c02b_0000,0010,000a,000d,002b,0015_0403	0".
 Proof. vm_compute. reflexivity. Qed.
 
 Require Extraction.
